@@ -149,6 +149,26 @@ impl<'a> Iterator for ColourStream<'a> {
     }
 }
 
+/// `colours.map(from_raw)` without losing the inner iterator's O(1) `nth` (`Map` does not forward it)
+pub struct ToColour<'a, C> {
+    inner: &'a mut dyn Iterator<Item = u32>,
+    _p: std::marker::PhantomData<C>,
+}
+impl<'a, C: HColor> ToColour<'a, C> {
+    pub fn new(inner: &'a mut dyn Iterator<Item = u32>) -> Self {
+        ToColour { inner, _p: std::marker::PhantomData }
+    }
+}
+impl<'a, C: HColor> Iterator for ToColour<'a, C> {
+    type Item = C;
+    fn next(&mut self) -> Option<C> {
+        self.inner.next().map(C::from_raw)
+    }
+    fn nth(&mut self, n: usize) -> Option<C> {
+        self.inner.nth(n).map(C::from_raw)
+    }
+}
+
 pub trait Dut {
     fn bits(&self) -> u32;
     fn set_pixel(&mut self, x: u16, y: u16, c: u32) -> Res;
@@ -324,7 +344,7 @@ where
     fn set_pixels(&mut self, sx: u16, sy: u16, ex: u16, ey: u16, colours: &mut dyn Iterator<Item = u32>) -> Res {
         let r = guard(|| {
             self.d
-                .set_pixels(sx, sy, ex, ey, colours.map(M::ColorFormat::from_raw))
+                .set_pixels(sx, sy, ex, ey, ToColour::<M::ColorFormat>::new(colours))
                 .map_err(|e| DutErr::Bus(e.info()))
         });
         self.w.borrow_mut().flush();
@@ -342,7 +362,7 @@ where
     fn fill_contiguous(&mut self, rect: &Rect, colours: &mut dyn Iterator<Item = u32>) -> Res {
         let r = guard(|| {
             self.d
-                .fill_contiguous(&rect.to_eg(), colours.map(M::ColorFormat::from_raw))
+                .fill_contiguous(&rect.to_eg(), ToColour::<M::ColorFormat>::new(colours))
                 .map_err(|e| DutErr::Bus(e.info()))
         });
         self.w.borrow_mut().flush();
